@@ -2301,12 +2301,18 @@ _dbus_read_credentials_socket  (DBusSocket       client_fd,
     else
       {
         pid_read = cr.pid;
-        uid_read = cr.uid;
+        /* A socket that has no peer credentials (for instance TCP) reports
+         * (uid_t) -1 and (gid_t) -1. Leave our wider variables unset in
+         * that case: widening the 32-bit -1 would produce an id that no
+         * longer compares equal to DBUS_UID_UNSET / DBUS_GID_UNSET. */
+        if (cr.uid != (uid_t) -1)
+          uid_read = cr.uid;
 #ifdef __linux__
         /* Do other platforms have cr.gid? (Not that it really matters,
          * because the gid is useless to us unless we know the complete
          * group vector, which we only know on Linux.) */
-        primary_gid_read = cr.gid;
+        if (cr.gid != (gid_t) -1)
+          primary_gid_read = cr.gid;
 #endif
       }
 #elif defined(HAVE_UNPCBID) && defined(LOCAL_PEEREID)
